@@ -1388,11 +1388,6 @@ func (e *CoreExtension) filterFirst(value interface{}, args ...interface{}) (int
 			return v[0], nil
 		}
 		return nil, nil
-	case map[string]interface{}:
-		for _, val := range v {
-			return val, nil // Return first value found
-		}
-		return nil, nil
 	}
 
 	// Try reflection for other types
@@ -1410,8 +1405,9 @@ func (e *CoreExtension) filterFirst(value interface{}, args ...interface{}) (int
 		}
 		return nil, nil
 	case reflect.Map:
-		for _, key := range rv.MapKeys() {
-			return rv.MapIndex(key).Interface(), nil // Return first value found
+		// The first entry is the one with the smallest key
+		if keys := sortedMapKeys(rv); len(keys) > 0 {
+			return rv.MapIndex(keys[0]).Interface(), nil
 		}
 		return nil, nil
 	}
@@ -1710,7 +1706,7 @@ func (e *CoreExtension) filterKeys(value interface{}, args ...interface{}) (inte
 	if rv.Kind() == reflect.Map {
 		// For maps, return the keys as a slice of the same type as the keys
 		keys := make([]interface{}, 0, rv.Len())
-		for _, key := range rv.MapKeys() {
+		for _, key := range sortedMapKeys(rv) {
 			if key.CanInterface() {
 				keys = append(keys, key.Interface())
 			}
